@@ -63,6 +63,8 @@ M = [
  ("C06","loop-le","parser/parser.go",'precedence < p.peekPrecedence() {','precedence <= p.peekPrecedence() {'),
  ("C06","prefix-loose","parser/parser.go",'	expression.Right = p.parseExpression(PREFIX)','	expression.Right = p.parseExpression(LOWEST)'),
  ("C06","and-no-shortcircuit","compiler.go",'	case node.Operator == "&&" && !c.isTruthy(lres):','	case node.Operator == "&&" && lres == nil:'),
+ ("C16","call-value-wrapped","compiler.go",'	return functionValue(res), nil','	return res, nil'),
+ ("C16","unwrap-despite-output","compiler.go",'	for len(cur.Value) == 1 {','	for len(cur.Value) >= 1 {'),
 ]
 def main():
     only = sys.argv[1:] 
